@@ -9,7 +9,8 @@ reference is counted as a possible call.  Names are resolved the way Python reso
   scope stands for the function that creates the lambda; any other local / parameter is an unknown value (the callbacks a
   traversal receives are parameters: they are the caller's code, not part of this graph);
 * then through the REAL module's globals (so `from x import y as z`, re-exports and overload stubs resolve to the function
-  object Python would call): repository functions, repository classes (their `__init__`), `module.f`, `Class.f`;
+  object Python would call): repository functions, repository classes where they are CALLED (their `__init__` / `__new__`;
+  a class that is only mentioned -- isinstance, an annotation -- constructs nothing), `module.f`, `Class.f`;
 * `self.m` / `cls.m` inside a method (or inside a def nested in a method) through the MRO of the defining class: functions,
   static / class methods, property getters.
 
@@ -144,16 +145,18 @@ def _nested(parent, node):
     return _cache[ck]
 
 
-def _resolve_global(fn, name):
+def _resolve_global(fn, name, is_called=True):
     """the repository function(s) a module-level name stands for"""
     mod = fn.module
     if mod is None or name not in getattr(mod, "__dict__", {}):
         return []
-    return _of_object(mod.__dict__[name])
+    return _of_object(mod.__dict__[name], is_called)
 
 
-def _of_object(obj):
+def _of_object(obj, is_called=True):
     if inspect.isclass(obj):
+        if not is_called:  # a class that is merely mentioned (isinstance, annotations, a default) is not constructed there
+            return []
         out = []
         for dunder in ("__init__", "__new__", "__post_init__"):
             try:
@@ -195,6 +198,7 @@ def callees(fn, receivers=None):
     out = []
     scopes = fn.chain + [fn]
     selfname, owner = _self_name(fn)
+    called = {id(n.func) for n in fn.own_nodes() if isinstance(n, ast.Call)}
     for n in fn.own_nodes():
         line = getattr(n, "lineno", 0)
         if isinstance(n, ast.Name) and isinstance(n.ctx, ast.Load):
@@ -210,7 +214,7 @@ def callees(fn, receivers=None):
                     out.append((scopes[k], line))  # the lambda belongs to the function that creates it
                 break
             if not hit:
-                out.extend((g, line) for g in _resolve_global(fn, n.id))
+                out.extend((g, line) for g in _resolve_global(fn, n.id, id(n) in called))
         elif receivers and isinstance(n, ast.Attribute) and isinstance(n.ctx, ast.Load) and ast.unparse(n.value) in receivers:
             try:
                 m = inspect.getattr_static(_class_of(receivers[ast.unparse(n.value)]), n.attr)
